@@ -1615,7 +1615,10 @@ def extl_part(run, r, runner, n):
         if not c["bypass"]:
             bl = bl[:-1] + ["  bypassExtendedLagrangian off", "}"]
         scn += ["echo CASE %d" % k, "natoms 1", "temperature 300", "dt 1", "new", "capture", "config EOF"] + cv + bl + ["EOF", "show atomf 0 cv 0 energy 0 bias 0"]
-        for z in c["zs"]:
+        c["flip"] = r.randrange(1, len(c["zs"])) if r.random() < 0.6 else None     # the option switched by script before this event
+        for j, z in enumerate(c["zs"]):
+            if c["flip"] == j:
+                scn.append("script cv bias r set bypass_extended_Lagrangian_coordinates %s" % ("off" if c["bypass"] else "on"))
             scn += ["pos 1 0 0 %s" % hx(z), "step", "rdump"]
         scn.append("echo END %d" % k)
     rc2, iout, e2 = V.run_lines(runner.unit, scn, cwd=runner.scratch)
@@ -1629,14 +1632,19 @@ def extl_part(run, r, runner, n):
         if cs is None or not cs["complete"] or len(cs["steps"]) != len(c["zs"]) or any("err=ok" not in l for l in cs["config"]):
             run.mismatch("walls-extended", c, ((cs or {}).get("config", []) + (cs or {}).get("raw", []))[-3:], "complete run")
             continue
+        serr = [l for l in cs["raw"] if l.startswith("SCRIPT") and "err=ok" not in l]
+        if serr:
+            run.violation("script:feature-name-not-found", "cv bias r set bypass_extended_Lagrangian_coordinates %s: %s" % ("off" if c["bypass"] else "on", serr[0][:200]), rp)
+            continue
         ax = [float.fromhex(parse_fields(l)["AX"]) for l in cs["raw"] if l.startswith("RD ")]
         vals = []
         moved = False
-        for z, a, o in zip(c["zs"], ax, cs["steps"]):
+        for j, (z, a, o) in enumerate(zip(c["zs"], ax, cs["steps"])):
             if a != z:
                 run.violation("harness:actual-value", "the variable proper is %r, imposed %r" % (a, z), rp)
             moved = moved or o["X"][0] != a
-            vals.append(a if c["bypass"] else o["X"][0])
+            byp = c["bypass"] if (c["flip"] is None or j < c["flip"]) else not c["bypass"]
+            vals.append(a if byp else o["X"][0])
         c2 = dict(c, events=[("S", [v_]) for v_ in vals])
         ml, d = model_case(c2, runner.wallsinit)
         for sig, text in oracle(c2, d, cs["steps"]):
@@ -1750,9 +1758,10 @@ def session_part(run, r, runner, n):
         L = L[:e0] + ["harmonic {", "  name r2", "  colvars " + " ".join("v%d" % i for i in range(len(c["vars"]))), "  centers " + vec(c["c2"]), "  forceConstant 0.75", "}"] + L[e0:]
         rd = [j for j, l in enumerate(L) if l == "rdump"]
         pd = rd[c["jdel"]]
-        L = L[:pd + 1] + ["script cv bias r2 delete"] + L[pd + 1:]
+        L = L[:pd + 1] + ["script cv bias r2 delete", "script cv bias r set apply_force on"] + L[pd + 1:]
         pb = rd[c["jbad"]]
-        L = L[:pb + 1] + ["config EOF", "harmonic {", "  name bad", "  colvars v0", "  targetCenters 1.0", "}", "EOF"] + L[pb + 1:]
+        # ... and the restraint does not apply its force for a while (its parameters, energy and schedule go on)
+        L = L[:pb + 1] + ["config EOF", "harmonic {", "  name bad", "  colvars v0", "  targetCenters 1.0", "}", "EOF", "script cv bias r set apply_force off"] + L[pb + 1:]
         scn += L
     mlines, ds = [], []
     for c in cases:
@@ -1880,6 +1889,51 @@ def reconfig_part(run, r, runner, n):
                 c["it0"] + jr, c["what"], {"k": c["k"], "centers": c["centers"], "width": c["vars"][0]["w"]}[c["what"]],
                 {"k": c2["k"], "centers": c2["centers"], "width": c2["vars"][0]["w"]}[c["what"]]), rp)
         run.count("reconfig%d" % k, True)
+
+
+def accw_toggle_part(run, r, runner, n):
+    """outputAccumulatedWork switched on, off and on again by script (cv bias r set output_accumulated_work) on a restraint
+    whose force constant changes continuously: the work grows by dU/dk x (k increment) at the steps computed while the
+    option is on and stays put while it is off."""
+    cases = []
+    for k in range(n):
+        N = r.choice([3, 4, 5, 6, 7, 8])
+        c = {"w": r.choice(WIDTHS), "k": r.choice([0.5, 1.0, 2.0]), "tk": r.choice([0.0, 4.0, 6.0]), "N": N, "cen": V.dyadic(r, -2, 2, bits=2),
+             "xs": [V.dyadic(r, -4, 4, bits=3) for _ in range(N + 3)]}
+        js = sorted(r.sample(range(0, N + 2), 3))
+        c["on1"], c["off"], c["on2"] = js
+        cases.append(c)
+    scn = []
+    for k, c in enumerate(cases):
+        scn += ["echo CASE %d" % k, "natoms 1", "new", "capture", "config EOF"] + colvar_block(0, {"w": c["w"], "per": False}) + [
+            "harmonic {", "  name r", "  colvars v0", "  centers %r" % c["cen"], "  forceConstant %r" % c["k"], "  targetForceConstant %r" % c["tk"],
+            "  targetNumSteps %d" % c["N"], "}", "EOF", "show atomf 0 cv 0 energy 0 bias 0"]
+        for j, x in enumerate(c["xs"]):
+            scn += ["pos 1 0 0 %s" % hx(x), "step", "rdump"]
+            if j in (c["on1"], c["on2"]):
+                scn.append("script cv bias r set output_accumulated_work on")
+            elif j == c["off"]:
+                scn.append("script cv bias r set output_accumulated_work off")
+        scn.append("echo END %d" % k)
+    rc2, iout, e2 = V.run_lines(runner.unit, scn, cwd=runner.scratch)
+    impl = parse_impl(iout)
+    for k, c in enumerate(cases):
+        cs = impl.get(k)
+        run.dist("accumulated-work:switched-by-script")
+        if cs is None or not cs["complete"] or len(cs["steps"]) != len(c["xs"]) or any("err=ok" not in l for l in cs["config"]):
+            run.mismatch("accw-toggle", c, ((cs or {}).get("config", []) + (cs or {}).get("raw", []))[-3:], "complete run")
+            continue
+        W = Fr(0)
+        kof = lambda t: fr(c["k"]) + (fr(c["tk"]) - fr(c["k"])) * min(Fr(1), Fr(t, c["N"]))
+        for t, (x, o) in enumerate(zip(c["xs"], cs["steps"])):
+            on = (c["on1"] < t <= c["off"]) or (t > c["on2"])
+            if on and t >= 1:
+                W += (fr(x) - fr(c["cen"])) ** 2 / (2 * fr(c["w"]) ** 2) * (kof(t) - kof(t - 1))
+            if not close(float(W), o["W"]):
+                run.violation("work:k:switched-by-script", "k %r -> %r in %d steps, work switched on after step %d, off after %d, on after %d: step %d accumulated work %r, expected %r" % (
+                    c["k"], c["tk"], c["N"], c["on1"], c["off"], c["on2"], t, o["W"], float(W)), {"kind": "accw-toggle", "case": c})
+                break
+        run.count("accwtoggle%d" % k, True)
 
 
 def tsf_part(run, runner):
@@ -2137,6 +2191,7 @@ def check(run):
     ediff_moving_part(run, r, runner, 40 if quick else 1000)
     traj_part(run, r, runner, 30 if quick else 600)
     badconfig_part(run, runner)
+    accw_toggle_part(run, r, runner, 20 if quick else 500)
     reconfig_part(run, r, runner, 30 if quick else 800)
     session_part(run, r, runner, 30 if quick else 800)
     extl_part(run, r, runner, 30 if quick else 800)
